@@ -113,7 +113,7 @@ func (srv *BfeServer) serverDataConfReload(hostFile, vipFile, routeFile, cluster
 	srv.ServerConf = newServerConf
 	srv.confLock.Unlock()
 
-	srv.ReverseProxy.setTransports(srv.ServerConf.ClusterTable.ClusterMap())
+	srv.ReverseProxy.setTransports(newServerConf.ClusterTable.ClusterMap())
 
 	// set gslb basic
 	srv.balTable.SetGslbBasic(newServerConf.ClusterTable)
